@@ -1,7 +1,7 @@
 //! Verification hooks for property C06 (add-only, compiled only with `--cfg samlang_verif`):
 //! plain re-exports of the private decision kernels of `type_system.rs`, so that a harness can
 //! run them on arbitrary types. Nothing changes when the cfg is off.
-use super::type_::{Type, TypeParameterSignature};
+use super::type_::{GlobalSignature, NominalType, Type, TypeParameterSignature};
 use super::type_system;
 use samlang_errors::ErrorSet;
 use samlang_heap::PStr;
@@ -47,4 +47,11 @@ pub fn solve_type_constraints(
   let r =
     type_system::solve_type_constraints(concrete, generic, type_parameter_signatures, &mut error_set);
   (r.solved_substitution, r.solved_generic_type, error_set.has_errors())
+}
+
+/// `global_signature::resolve_all_transitive_super_types`: (instantiated super types in collection
+/// order, is_cyclic).
+pub fn resolve_supers(global_cx: &GlobalSignature, t: &NominalType) -> (Vec<NominalType>, bool) {
+  let r = super::global_signature::resolve_all_transitive_super_types(global_cx, t);
+  (r.types, r.is_cyclic)
 }
